@@ -221,7 +221,66 @@ func Run(o *hx.Out, g *hx.Rng, tier string) {
 			x.decode(pkt, line)
 		}
 	}
+	x.emptyGroups(g.Fork(), tier)
 	if len(x.ops) > 0 {
 		x.o.Case(hx.HashKey(strings.Join(x.ops, "\n")))
+	}
+}
+
+// emptyGroups: the one way ReconstructData fails in a decoder that has dataShards packets of a group
+// — every shard is empty (packets of exactly fecHeaderSize bytes; klauspost: ErrShardNoData).  On
+// that path the decoder itself must recycle the buffers it acquired for the missing shards.  Groups
+// of header-only packets (types agree with the positions, so no re-tune), some data positions
+// missing, mixed with groups where one packet has a body (reconstruction succeeds).
+func (x *runner) emptyGroups(g *hx.Rng, tier string) {
+	rounds := 40
+	if tier == "thorough" {
+		rounds = 400
+	}
+	for r := 0; r < rounds; r++ {
+		dp := [][2]int{{1, 1}, {2, 1}, {2, 2}, {3, 2}, {4, 4}, {10, 3}}[g.Intn(6)]
+		d, p := dp[0], dp[1]
+		n := d + p
+		x.newDec(d, p, fmt.Sprintf("dec %d %d", d, p))
+		base := uint32(g.Intn(1000)) * uint32(n)
+		for grp := 0; grp < 6 && x.dec != nil; grp++ {
+			withBody := g.Chance(35)
+			order := make([]int, n)
+			for i := range order {
+				order[i] = i
+			}
+			for i := n - 1; i > 0; i-- {
+				j := g.Intn(i + 1)
+				order[i], order[j] = order[j], order[i]
+			}
+			for _, pos := range order {
+				if g.Chance(25) {
+					continue // lost
+				}
+				pkt := make([]byte, 6)
+				seq := base + uint32(grp*n+pos)
+				pkt[0], pkt[1], pkt[2], pkt[3] = byte(seq), byte(seq>>8), byte(seq>>16), byte(seq>>24)
+				pkt[4] = 0xf1
+				if pos >= d {
+					pkt[4] = 0xf2
+				}
+				if withBody && g.Chance(50) {
+					body := g.Bytes(2 + g.Intn(6))
+					for i := range body {
+						if body[i] == kcp.VerifPoison {
+							body[i] = 1
+						}
+					}
+					body[0], body[1] = byte(len(body)), 0
+					pkt = append(pkt, body...)
+				} else {
+					x.o.Count("d:header-only")
+				}
+				x.decode(pkt, "d "+hex.EncodeToString(pkt))
+				if g.Chance(10) {
+					x.decode(pkt, "d "+hex.EncodeToString(pkt)) // duplicate
+				}
+			}
+		}
 	}
 }
